@@ -396,6 +396,13 @@ def gen_case(seed, i, mode):
         # small loop bodies: every permutation of their reads
         return {'kind': 'flow', 'prog': small_loop_program(r), 'rng': r.getrandbits(32)}
     spec = G.gen_project(r)
+    if r.random() < 0.2:
+        # one module does not parse (somebody is in the middle of typing in it): every request that reaches it raises,
+        # and must raise the same way whatever was asked before
+        cands = [k for k, m in enumerate(spec['modules']) if not m.get('init')]
+        k = r.choice(cands)
+        m = spec['modules'][k]
+        spec['modules'][k] = dict(m, items=m['items'] + [['raw', ['def zqbroken(:', '    pass']]])
     n = r.choice((5, 8, 12, 20, 30))
     base = [G.gen_request(r, spec, uid='q%d' % j) for j in range(r.choice((3, 4, 6, 8)))]
     reqs = [{'kind': q['kind'], 'source': q['source'], 'position': q['position'], 'file': q['file']} for q in base]
